@@ -18,4 +18,10 @@ def run(ctx, L, tier):
     G.f9_arithmetic(ctx, L, 'prophyc.generators.cpp', ['_HppDefinitionsTranslator.translate_struct.gen_member'])
     G.padding_tail(ctx, L, 'generate_struct_encode', G.PAD_ENC)
     G.padding_tail(ctx, L, 'generate_struct_decode', G.PAD_DEC)
+    from . import c20
+    c20.shared_state(ctx, L)        # no state that survives from one compiled file / call to the next (module, class, closure, default argument)
+    from . import c14
+    c14.precedence(ctx, L)           # sizes written as expressions are evaluated by the model-time evaluator
+    c14.ladders(ctx, L)
+    c14.evaluator_state(ctx, L)
     return sorted(set(o.rule for o in L.obligations))
